@@ -7,9 +7,9 @@ from emmet import expand
 
 PROP_ID = 'C03'
 RULE = ("case = (1–3 elements each with 0–6 attribute mentions, config). (a) exhaustive: every sequence of ≤ 3 (4 thorough) mentions over "
-        "{.a .b #i #j [t=1] [t=\"2 x\"] [t] [class=c] [d.] [!t] [!t=3] [disabled]} × reverseAttributes on/off × 3 option sets; (b) Hypothesis: mentions "
+        "{.a .b #i #j [t=1] [t=\"2 x\"] [t] [class=c] [d.] [!t] [!t=3] [disabled] [!h.]} × reverseAttributes on/off × 3 option sets; (b) Hypothesis: mentions "
         "drawn with replacement from a 6-name pool (class id disabled for t title) in every written form (shorthand, valueless, unquoted, double/single "
-        "quoted incl. empty and with brackets/other quote/blanks, {expression}, `name.`, `!name`, `!name=v`), joined in one bracket set or separate, "
+        "quoted incl. empty and with brackets/other quote/blanks, {expression}, `name.`, `!name`, `!name.`, `!name=v`), joined in one bracket set or separate, "
         "across syntaxes html/xml/jsx/vue and options attributeQuotes/attributeCase/compactBoolean/reverseAttributes/selfClosingStyle/user "
         "markup.attributes. Oracle: reference attribute model of the statement (first-mention order, class join, last/first value wins, sticky "
         "boolean/implied, quoting, boolean expansion, implied dropping, name mapping + case), exact equality of the whole output in format-off mode. "
@@ -75,7 +75,7 @@ CHECKS = {'attrs': check_attrs, 'attrs-x': check_attrs_x}
 
 POOL = [['.', ['a']], ['.', ['b']], ['#', ['i']], ['#', ['j']], ['a', 't', 'raw', ['1'], False], ['a', 't', 'dq', ['2 x'], False], ['a', 't', 'none', None, False],
         ['a', 'class', 'raw', ['c'], False], ['a', 'd', 'bool', None, False], ['a', 't', 'impl', None, False], ['a', 't', 'impl-raw', ['3'], False],
-        ['a', 'disabled', 'none', None, False]]
+        ['a', 'disabled', 'none', None, False], ['a', 'h', 'impl-bool', None, False]]
 OPTSETS = [{}, {'output.compactBoolean': True, 'output.attributeQuotes': 'single'}, {'output.attributeCase': 'upper', 'output.selfClosingStyle': 'xhtml', 'output.compactBoolean': True}]
 
 
